@@ -19,7 +19,7 @@
 EXTENDS Star, Json, IOUtils
 
 RC == INSTANCE RelionConv WITH InitCases <- {}, EmitMode <- "none", cs <- <<>>, rel <- <<>>, back <- <<>>, pc <- "",
-                               op <- "", cid <- 0
+                               op <- "", cid <- 0, live <- <<>>
 
 CONSTANTS PosTol, RotTol, FilePosTol, FileRotTol
 
